@@ -111,6 +111,10 @@ type Machine struct {
 	trace      bool
 	deadline   time.Time
 
+	clockSymbolic bool
+	clock         int64
+	lastNow       *Term
+	timerOf       map[*Value]*timerRec
 	spec        bool
 	noIfConv    bool
 	noLocal     bool
@@ -558,6 +562,9 @@ func (m *Machine) resetPath(p pending) {
 	m.deadlock = ""
 	m.timers = nil
 	m.timersFired = 0
+	m.clock = 0
+	m.lastNow = nil
+	m.timerOf = map[*Value]*timerRec{}
 	if p.model == nil {
 		p.model = map[*Term]uint64{}
 	}
